@@ -46,7 +46,7 @@ def run_types(prop, tier, seed, t0):
         if still:
             known_lines.append(f"KNOWN-FINDING: property={prop} {f['id']} {f['what']} (witness still fails; cases in this class on this run: {hits})")
     listed = {f["id"] for f in known}
-    violations = list(tot["viol"])
+    violations = fw.regressions(prop) + list(tot["viol"])
     for k, v in tot["known"].items():
         if k not in listed and v["count"]:
             violations.append({"law": f"failing class {k} is not a listed known finding", "count": v["count"], "witness": v["witness"]})
@@ -128,7 +128,7 @@ def run_generic(prop, tier, seed, t0):
             hits = oc["known"].get(f["id"], {"count": 0})["count"]
             known_lines.append(f"KNOWN-FINDING: property={prop} {f['id']} {f['what']} (witness still fails; cases in this class on this run: {hits})")
     listed = {f["id"] for f in known}
-    violations = list(oc["viol"])
+    violations = fw.regressions(prop) + list(oc["viol"])
     for k, v in oc["known"].items():
         if k not in listed and v["count"]:
             violations.append({"law": f"failing class {k} is not a listed known finding", "count": v["count"], "witness": v["witness"]})
